@@ -275,9 +275,19 @@ class Redirect:
         else:
             os.environ["XDG_CONFIG_HOME"] = self.xdg
         os.chdir(self.cwd)
+        # discovery.paths_from_path binds `working_path=os.getcwd()` when the module is imported; a real run starts in its
+        # working directory, so give the default the value it would have there (otherwise the ignore-file search reads config
+        # files between / and the file)
+        from sqlfluff.core.linter import discovery
+        self.pfp = discovery.paths_from_path
+        self.old_defaults = self.pfp.__defaults__
+        d = list(self.old_defaults)
+        d[2] = os.getcwd()
+        self.pfp.__defaults__ = tuple(d)
         return self
 
     def __exit__(self, *a):
+        self.pfp.__defaults__ = self.old_defaults
         os.chdir(self.oldcwd)
         for k, v in self.old.items():
             if v is None:
@@ -1562,7 +1572,8 @@ def history(ctx, sc, root, kw, rng):
                 res = linter.lint_paths(tuple(order))
                 files = {os.path.abspath(f.path): viol_sig(f) for d in res.paths for f in d.files}
             except Exception as e:  # noqa: BLE001
-                err = (exc_kind(e), repr(e)[:300])
+                import traceback
+                err = (exc_kind(e), repr(e)[:300], traceback.format_exc()[-1800:])
         runs.append({"order": order, "events": cap.events, "violations": files, "err": err})
     solo = {}
     for x in paths:
